@@ -4,7 +4,7 @@
     established by the constructors and preserved by every write.
     Only statements; proofs are [exact <lemma>]. *)
 Require Import AT.Model.Base AT.Model.Symlink AT.Spec.SymlinkSpec.
-Require AT.Proofs.SymlinkProofs.
+Require AT.Proofs.SymlinkProofs AT.Proofs.SymlinkXProofs AT.Model.SymlinkX.
 Import AT.Proofs.SymlinkProofs.
 
 (** every data attribute read on a link - through chains of any length -
@@ -44,6 +44,14 @@ Print Assumptions C20_write_then_read.
     model; for the implementation it is the harness's structural check. *)
 Definition C20_structure_independent_by_construction : Prop :=
   forall s o, exists a s', run_aop s o = (a, s').
+
+(** classes that define attributes themselves (a class attribute of a SymlinkNode
+    subclass, a read-only property of a node class) are covered by the extended
+    model Model/SymlinkX.v; without such attributes it is the model above *)
+Theorem C20_class_attributes_conservative : forall ops s,
+  AT.Model.SymlinkX.run_aops_c AT.Model.SymlinkX.no_cls s ops = run_aops s ops.
+Proof. exact AT.Proofs.SymlinkXProofs.run_aops_c_plain. Qed.
+Print Assumptions C20_class_attributes_conservative.
 
 Example C20_example :
   fst (run_aops [] [ANewPlain [([97]%N, 1%Z)]; ANewLink 0 []; ANewLink 1 [([107]%N, 5%Z)];
